@@ -68,6 +68,36 @@ def _canonicalize_reshape_params(
     return tuple(_iter_newshape(new_sizes)), dims, sharding
 
 
+def _resolve_static_minus_one(
+    in_shape: Sequence[object], new_sizes: tuple[int | object, ...]
+) -> tuple[int | object, ...]:
+    """Replace a single -1 by its value when every extent is a concrete integer.
+
+    The differentiation rules forwarded from lax.reshape_p re-bind lax.reshape_p
+    with these sizes, and that primitive does not accept -1.
+    """
+    ints = (int, np.integer)
+    if not all(isinstance(d, ints) for d in in_shape):
+        return new_sizes
+    if not all(isinstance(d, ints) for d in new_sizes):
+        return new_sizes
+    holes = [i for i, d in enumerate(new_sizes) if int(d) == -1]
+    if len(holes) != 1:
+        return new_sizes
+    known = 1
+    for i, d in enumerate(new_sizes):
+        if i != holes[0]:
+            known *= int(d)
+    total = 1
+    for d in in_shape:
+        total *= int(d)
+    if known <= 0 or total % known != 0:
+        return new_sizes
+    resolved = list(new_sizes)
+    resolved[holes[0]] = total // known
+    return tuple(resolved)
+
+
 def _find_axis_for_dim(dim: object, input_shape: Sequence[object]) -> int | None:
     for idx, src in enumerate(input_shape):
         if dim is src:
@@ -598,6 +628,7 @@ class JnpReshapePlugin(PrimitiveLeafPlugin):
                     newshape=newshape,
                     order=order,
                 )
+                new_sizes = _resolve_static_minus_one(arr.shape, new_sizes)
                 return cls._PRIM.bind(
                     arr,
                     new_sizes=new_sizes,
